@@ -264,12 +264,13 @@ def gen(repo: Path) -> str:
     o.append(f"\ndef caughtClasses : List String := [{', '.join(lean_str(c) for c in sorted(caught))}]\n")
     o.append(f"def defaultMaxAge : Nat := {default_age}\n")
     o.append(f"def cacheControlRe : String := {lean_str(regex)}\n")
+    o.append(f"def cacheControlReBytes : List Nat := {_bytes_lit(regex.encode())}\n")
     o.append(f"def cacheControlReFlags : List String := [{', '.join(lean_str(f) for f in regex_flags)}]\n")
     o.append(f"def locationPrefix : List Nat := {_bytes_lit(s_sw[0].encode())}\n")
     o.append("def badLocationNeedles : List (List Nat) := [" + ", ".join(_bytes_lit(x.encode()) for x in s_in) + "]\n")
-    o.append(f"def searchKeys : List String := [{', '.join(lean_str(k) for k in s_keys)}]\n")
-    o.append(f"def advertisementKeys : List String := [{', '.join(lean_str(k) for k in a_keys)}]\n")
-    o.append(f"def byebyeKeys : List String := [{', '.join(lean_str(k) for k in b_keys)}]\n")
+    o.append("def searchKeys : List (List Nat) := [" + ", ".join(_bytes_lit(k.encode()) for k in s_keys) + "]\n")
+    o.append("def advertisementKeys : List (List Nat) := [" + ", ".join(_bytes_lit(k.encode()) for k in a_keys) + "]\n")
+    o.append("def byebyeKeys : List (List Nat) := [" + ", ".join(_bytes_lit(k.encode()) for k in b_keys) + "]\n")
     o.append(f"def mxCap : Nat := {mx_cap}\n")
     o.append(f"def jitterLo : Nat := {jitter_lo}\n")
     o.append("def jitterHiOffset : Nat := 250\n")
